@@ -102,18 +102,19 @@ type actorEnt struct {
 	}
 	system bool
 	// request bookkeeping (C18 / C19)
-	reqKey    string
-	reqAtMs   int64
-	reqGS     *pokerface.GameState
-	reqIdx    int
-	reqSusp   bool
-	answered  map[string]int
-	lastObs   string
-	delivered bool
-	prevGS    *pokerface.GameState
-	prevIdx   int
-	prevAtMs  int64
-	prevSusp  bool
+	reqKey      string
+	reqAtMs     int64
+	reqGS       *pokerface.GameState
+	reqIdx      int
+	reqSusp     bool
+	answered    map[string]int
+	lastObs     string
+	delivered   bool
+	syncDeliver bool // observer wired as in actor/*_test.go: handed the table synchronously from the engine callback
+	prevGS      *pokerface.GameState
+	prevIdx     int
+	prevAtMs    int64
+	prevSusp    bool
 }
 
 type actorWorld struct {
@@ -127,9 +128,12 @@ type actorWorld struct {
 	lastOpenMs      int64
 	lastSettleMs    int64
 	settledGC       map[int]bool
+	openedGC        map[int]bool
 	extPause        bool
 	botsOnly        bool
 	obsCount        int64
+	pubWake         chan struct{}
+	lastPubKey      int64
 }
 
 func init() { RegisterWorld("actor", func() World { return &actorWorld{} }) }
@@ -202,6 +206,7 @@ func (b *latencyBackend) Pass(gs *pokerface.GameState) (*pokerface.GameState, er
 func (w *actorWorld) Run(c *Ctx) {
 	w.c = c
 	w.settledGC = map[int]bool{}
+	w.openedGC = map[int]bool{}
 	focus := c.Job.Property
 	seats := 2 + c.CfgInt("seats", 0, 8)
 	n := 2 + c.CfgInt("players", 0, 7)
@@ -311,6 +316,7 @@ func (w *actorWorld) Run(c *Ctx) {
 		ob := actor.NewObserverRunner()
 		e.system = focus != "C20" && cs.Chance(1, 3)
 		ob.EnabledSystemMode(e.system)
+		e.syncDeliver = cs.Chance(1, 2)
 		ee := e
 		ob.OnTableStateUpdated(func(t *pt.Table) { w.onObserved(ee, t) })
 		e.a.SetRunner(ob)
@@ -368,6 +374,31 @@ func (w *actorWorld) Run(c *Ctx) {
 			}
 		})
 	}
+	// concurrent publishers: deadline extensions and add-ons emit table updates from other goroutines
+	// than the hand's updater
+	w.pubWake = make(chan struct{}, 1)
+	simrt.Go(0, "publisher", func() {
+		st := c.St.Get("admin3")
+		for c.NowMs() < horizon && !c.Stopped() {
+			// either some time later, or right when the hand publishes something (so that two
+			// publishers are inside the actors at the same instant)
+			select {
+			case <-w.pubWake:
+			case <-time.After(time.Duration([]int{50, 200, 700, 2000}[st.Draw(4)]) * time.Millisecond):
+			}
+			t := eng.GetTable()
+			if t == nil || len(t.State.PlayerStates) == 0 {
+				continue
+			}
+			id := t.State.PlayerStates[st.Draw(len(t.State.PlayerStates))].PlayerID
+			if st.Chance(1, 2) {
+				eng.PlayerExtendActionDeadline(id, 1)
+			} else {
+				eng.PlayerRedeemChips(pt.JoinPlayer{PlayerID: id, RedeemChips: 1})
+			}
+			c.Fault("F5_concurrent_publisher")
+		}
+	})
 	// status changes of player runners (running / idle / suspended)
 	simrt.Go(0, "runner-status", func() {
 		st := c.St.Get("admin2")
@@ -413,14 +444,25 @@ func (w *actorWorld) Run(c *Ctx) {
 // adapter, but on the actor's own task (the tests' synchronous call from inside the callback
 // re-enters the engine and can self-deadlock on the engine lock).
 func (w *actorWorld) onUpdate(t *pt.Table) {
-	simrt.Atomic(func() { w.onUpdate1(t) })
+	var snap *pt.Table
+	simrt.Atomic(func() { snap = w.onUpdate1(t) })
+	if snap == nil {
+		return
+	}
+	// observers wired synchronously (exactly as the repository's tests do) are handed the table on
+	// the emitting goroutine, so that concurrent publishers overlap inside one actor
+	for _, e := range w.ents {
+		if e.syncDeliver {
+			e.ad.UpdateTableState(snap)
+		}
+	}
 }
 
-func (w *actorWorld) onUpdate1(t *pt.Table) {
+func (w *actorWorld) onUpdate1(t *pt.Table) *pt.Table {
 	c := w.c
 	snap := cloneTable(t)
 	if snap == nil {
-		return
+		return nil
 	}
 	st := snap.State
 	ev := ""
@@ -428,7 +470,8 @@ func (w *actorWorld) onUpdate1(t *pt.Table) {
 		ev = st.GameState.Status.CurrentEvent + "/" + st.GameState.Status.Round
 	}
 	c.Logf("SNAP #%d %s gc=%d %s |%s", snap.UpdateSerial, st.Status, st.GameCount, ev, playerLine(snap))
-	if st.Status == pt.TableStateStatus_TableGameOpened && st.GameState == nil {
+	if st.Status == pt.TableStateStatus_TableGameOpened && st.GameState == nil && !w.openedGC[st.GameCount] {
+		w.openedGC[st.GameCount] = true
 		w.opened++
 		w.lastOpenMs = c.NowMs()
 	}
@@ -437,13 +480,25 @@ func (w *actorWorld) onUpdate1(t *pt.Table) {
 		w.settled++
 		w.lastSettleMs = c.NowMs()
 	}
+	if st.GameState != nil && w.pubWake != nil && st.GameState.UpdatedAt != w.lastPubKey {
+		// only a new hand state wakes the publisher (its own emits re-publish the same hand state)
+		w.lastPubKey = st.GameState.UpdatedAt
+		select {
+		case w.pubWake <- struct{}{}:
+		default:
+		}
+	}
 	for _, e := range w.ents {
+		if e.syncDeliver {
+			continue
+		}
 		e.box = append(e.box, snap)
 		select {
 		case e.wake <- struct{}{}:
 		default:
 		}
 	}
+	return snap
 }
 
 func (w *actorWorld) deliverLoop(e *actorEnt) {
